@@ -43,6 +43,9 @@ type c06Case struct {
 	// Pending: ids of IQ requests waiting for their response (Router.NewIQResultRoute) when the packet arrives. A result
 	// or error IQ with such an id belongs to that request alone; everything else is routed as if nothing were pending.
 	Pending []string `json:"pending,omitempty"`
+	// Before: packets the same Router has routed earlier (only without pending requests): what a router did with one
+	// packet must not change what it does with the next
+	Before []c06Packet `json:"before,omitempty"`
 }
 
 var c06Payloads = map[string][2]string{ // key -> (namespace, xml)
@@ -84,10 +87,14 @@ func mixCase(t *rapid.T, s string) string {
 	return s
 }
 
-func genC06(t *rapid.T) c06Case {
-	var c c06Case
-	p := &c.Packet
+// genC06Packet draws a packet; kindBias, when set, is the kind it gets two times out of three.
+func genC06Packet(t *rapid.T, kindBias string) c06Packet {
+	var pk c06Packet
+	p := &pk
 	p.Kind = rapid.SampledFrom([]string{"message", "presence", "iq", "iq", "iq", "nonstanza"}).Draw(t, "kind")
+	if kindBias != "" && rapid.IntRange(0, 2).Draw(t, "sameKind") != 0 {
+		p.Kind = kindBias
+	}
 	p.Comp = rapid.IntRange(0, 4).Draw(t, "comp") == 0
 	if p.Kind == "nonstanza" {
 		p.Nonza = rapid.SampledFrom(c06Nonzas).Draw(t, "nonza")
@@ -101,6 +108,13 @@ func genC06(t *rapid.T) c06Case {
 			p.Payload = rapid.SampledFrom(append([]string{"", "unknown"}, c06PayloadKeys...)).Draw(t, "payload")
 		}
 	}
+	return pk
+}
+
+func genC06(t *rapid.T) c06Case {
+	var c c06Case
+	c.Packet = genC06Packet(t, "")
+	p := &c.Packet
 	if rapid.IntRange(0, 3).Draw(t, "pending") == 0 {
 		k := rapid.IntRange(1, 3).Draw(t, "npending")
 		for i := 0; i < k; i++ {
@@ -161,6 +175,12 @@ func genC06(t *rapid.T) c06Case {
 			}
 		}
 		c.Routes = append(c.Routes, r)
+	}
+	if len(c.Pending) == 0 && rapid.IntRange(0, 2).Draw(t, "history") == 0 {
+		k := rapid.IntRange(1, 3).Draw(t, "nbefore")
+		for i := 0; i < k; i++ {
+			c.Before = append(c.Before, genC06Packet(t, p.Kind))
+		}
 	}
 	return c
 }
@@ -300,6 +320,23 @@ func runC06(c c06Case) vh.Result {
 			got = append(got, p)
 		})
 	}
+	// earlier traffic through the same router
+	for _, b := range c.Before {
+		bh, be := b.xml()
+		bp, err := parseTop(bh, be)
+		if err != nil {
+			res.Fail("harness-parse", "generated packet %q does not parse: %v", be, err)
+			return res
+		}
+		xmpp.VerifRoute(router, &mockSender{}, bp)
+	}
+	if len(c.Before) > 0 {
+		res.Label("router-used-before")
+		for i := range calls {
+			calls[i] = 0
+		}
+		got = nil
+	}
 	want := -1
 	accepting := 0
 	for i, r := range c.Routes {
@@ -401,7 +438,7 @@ func runC06(c c06Case) vh.Result {
 
 var c06 = vh.Define(&vh.Def[c06Case]{
 	Property: "C06", Name: "router",
-	Rule: "route tables of 0-6 routes, each with any conjunction of Packet(name), StanzaType(types...), IQNamespaces(ns...) (names and types in mixed case, possibly empty lists) or no matcher, matchers biased towards the packet so that several routes accept it; packets = message / presence / IQ of every type (registered payload, unknown payload, none; client and component namespace) and non-stanza packets, in a quarter of the cases with 1-3 IQ requests pending on the router (ids foreign or equal to the packet's: only a result/error IQ with a pending id goes to that request - its channel gets it, no route and no reply - every other packet, same id or not, is routed as usual and disturbs no pending channel), produced by the library's own parser; oracle = reference router written from the package comment (index of the first accepting route; exactly that handler once; unhandled IQ get/set answered once with feature-not-implemented, same id, from/to swapped; nothing sent otherwise); IQs with an unknown payload are never paired with a namespace matcher naming that namespace (behaviour not documented); non-trivial = at least two routes accept the packet, or none does",
+	Rule: "route tables of 0-6 routes, each with any conjunction of Packet(name), StanzaType(types...), IQNamespaces(ns...) (names and types in mixed case, possibly empty lists) or no matcher, matchers biased towards the packet so that several routes accept it; packets = message / presence / IQ of every type (registered payload, unknown payload, none; client and component namespace) and non-stanza packets, in a quarter of the cases with 1-3 IQ requests pending on the router (a third of the other cases route 1-3 earlier packets, mostly of the same kind, through the same router first; ids foreign or equal to the packet's: only a result/error IQ with a pending id goes to that request - its channel gets it, no route and no reply - every other packet, same id or not, is routed as usual and disturbs no pending channel), produced by the library's own parser; oracle = reference router written from the package comment (index of the first accepting route; exactly that handler once; unhandled IQ get/set answered once with feature-not-implemented, same id, from/to swapped; nothing sent otherwise); IQs with an unknown payload are never paired with a namespace matcher naming that namespace (behaviour not documented); non-trivial = at least two routes accept the packet, or none does",
 	Quick: 50000, Thorough: 3000000,
 	Gen: genC06, Run: runC06,
 })
